@@ -206,7 +206,8 @@ func (s *state) walk(node ast.Node) {
 
 	// Arithmetic operators ----------
 	case *ast.NegateNode:
-		s.js("(-", node.Arg, ")")
+		// (the inner parentheses keep "-" + "-1" from reading as the decrement operator)
+		s.js("(-(", node.Arg, "))")
 	case *ast.AddNode:
 		s.op("+", node)
 	case *ast.SubNode:
